@@ -392,7 +392,9 @@ def config_text(plan, scratch):
                              ("max_size", "max-size"),
                              ("old_files", "old-files"), ("when", "when"),
                              ("interval", "interval"), ("delay", "delay"),
-                             ("encoding", "encoding")):
+                             ("encoding", "encoding"),
+                             ("dateformat", "dateformat"),
+                             ("formatter", "formatter")):
                 if h.get(key) is not None:
                     out.append("    %s %s" % (opt, h[key]))
             if h.get("format") is not None:
@@ -513,6 +515,11 @@ def gen_handler(rng, k, p_bad=0.3):
         h["format"] = gen_format(rng, "classic", p_bad)
     if rng.random() < 0.25:
         h["arbitrary"] = rng.choice(BOOL_TRUE + BOOL_FALSE)
+    if rng.random() < 0.2:
+        h["dateformat"] = rng.choice(["%H:%M:%S", "%Y", "%d/%m/%Y %H.%M",
+                                      "%j-%H", "T%H"])
+    if rng.random() < 0.1:
+        h["formatter"] = "logging.Formatter"
     return h
 
 
@@ -891,11 +898,12 @@ def _execute(plan, out, scratch, w, clock, recs):
         return logging.LogRecord(name or "root", 30, "/sim/app.py", 42,
                                  "hello %s", ("world",), None, func="fn")
 
-    def record_dict(name):
+    def record_dict(name, datefmt=None):
         """The model's view of the same record."""
         r = pristine_record(name)
         r.message = r.getMessage()
-        r.asctime = time.strftime(DATEFMT, time.localtime(r.created))
+        r.asctime = time.strftime(datefmt or DATEFMT,
+                                  time.localtime(r.created))
         return r
 
     def ensure_created(i, step, via):
@@ -1048,7 +1056,7 @@ def _execute(plan, out, scratch, w, clock, recs):
                                      handler_text_format(hp),
                                      hp.get("style")), step)
                     continue
-                rec2 = record_dict(lg.get("name"))
+                rec2 = record_dict(lg.get("name"), hp.get("dateformat"))
                 try:
                     want = render(hp, rec2.__dict__)
                 except Exception as e:     # pragma: no cover
@@ -1095,7 +1103,12 @@ def _execute(plan, out, scratch, w, clock, recs):
             ensure_created(op["i"], step, "call")
         elif kind == "reopen":
             if factories[op["i"]] is not None:
-                before = _stream_ids(recs, op["i"])
+                # factory.reopen() acts on the handlers that are on the
+                # logger object now (several sections may share it; a drop
+                # may have detached some)
+                on_logger = set(attached[keys[op["i"]]])
+                before = {k: v for k, v in _stream_ids(recs, None).items()
+                          if (recs[k].li, recs[k].hi) in on_logger}
                 ensure_created(op["i"], step, "reopen")
                 _check_reopened(recs, before, violation, step, op["i"],
                                 probe)
@@ -1252,7 +1265,8 @@ def shrink(plan):
             yield new
         for j, h in enumerate(lg["handlers"]):
             for key in ("level", "delay", "encoding", "arbitrary", "interval",
-                        "max_size", "when", "old_files", "format", "style"):
+                        "max_size", "when", "old_files", "format", "style",
+                        "dateformat", "formatter"):
                 if h.get(key) is not None:
                     nh = dict(h)
                     nh[key] = None
